@@ -26,9 +26,16 @@ class ElementProgram:
         if tokenizer is None:
             tokenizer = self.tokenizers[mode]
         tokens = tokenizer(source, filename)
-        parser = ElementParser(
-            tokens, self.DEFAULT_NAMESPACES, self.restricted_namespace
-        )
+
+        if mode == "text":
+            # In text mode, the source is text whatever it looks like
+            # (it must not be mistaken for markup when it starts with
+            # a left angle bracket).
+            parser = (("text", (token, )) for token in tokens)
+        else:
+            parser = ElementParser(
+                tokens, self.DEFAULT_NAMESPACES, self.restricted_namespace
+            )
 
         self.body = []
 
